@@ -263,3 +263,160 @@ func VerifC06_Reopen() {
 	verifrt.Assert(len(out) == 11 && int64(verifGet64(out)) == -1, "reopen.end-marker")
 	verifrt.Assert(t.w.led.Opened == t.w.led.Closed, "reopen.all-released")
 }
+
+// ---- a directory whose composition is chosen by the solver's case split ----------------------
+// /w holds n entries (n = 0..max); each entry independently is a regular file, a directory (holding one
+// file), a symbolic link to a regular file, or a dangling link. Names differ in length (1, 9 with a blank,
+// 255, 17 with a dot). One connection then enumerates entry by entry (either variant), re-opens, lists in
+// bulk and asks for the directory's size: each answer must describe exactly this tree.
+
+type verifWideEntry struct {
+	name  string
+	kind  int // 0 file, 1 directory, 2 link to a file, 3 dangling link
+	size  int64
+	mtime int64
+	inner int64 // size of the file inside a directory entry
+}
+
+func verifWideNames() []string {
+	long := make([]byte, 255)
+	for i := range long {
+		long[i] = 'x'
+	}
+	return []string{"a", "sp ace.up", string(long), "GAME.with.dots.iso"}
+}
+
+func VerifC06_Wide() {
+	names := verifWideNames()
+	n := verifrt.Choice("entries", 1+verifrt.Bound("C06.wide.maxentries", 3, 4))
+	led := &verifstub.Ledger{}
+	dir := &verifstub.File{Dir: true, MTime: 5}
+	base := &verifstub.Fs{L: led}
+	var ents []verifWideEntry
+	for i := 0; i < n; i++ {
+		e := verifWideEntry{name: names[i], kind: verifrt.Choice("kind", 4)}
+		e.size, e.mtime, e.inner = verifSize("w.size"), verifrt.Int64("w.mtime"), verifSize("w.inner")
+		ents = append(ents, e)
+		dir.Names = append(dir.Names, e.name)
+		p := "/w/" + e.name
+		switch e.kind {
+		case 0:
+			dir.Infos = append(dir.Infos, &verifstub.Info{NameV: e.name, SizeV: e.size, MTimeV: e.mtime})
+			base.Entries = append(base.Entries, &verifstub.Entry{Path: p, File: &verifstub.File{Label: "w", Size: e.size, MTime: e.mtime}})
+		case 1:
+			dir.Infos = append(dir.Infos, &verifstub.Info{NameV: e.name, SizeV: 4096, DirV: true, MTimeV: e.mtime})
+			base.Entries = append(base.Entries,
+				&verifstub.Entry{Path: p, File: &verifstub.File{Dir: true, Size: 4096, MTime: e.mtime, Names: []string{"in"}}},
+				&verifstub.Entry{Path: p + "/in", File: &verifstub.File{Label: "in", Size: e.inner, MTime: 3}})
+		case 2: // what the listing sees is the link (its own size and time); Stat follows it
+			dir.Infos = append(dir.Infos, &verifstub.Info{NameV: e.name, SizeV: 11, MTimeV: 1, ModeV: iofs.ModeSymlink})
+			base.Entries = append(base.Entries, &verifstub.Entry{Path: p, File: &verifstub.File{Label: "w", Size: e.size, MTime: e.mtime}})
+		case 3:
+			dir.Infos = append(dir.Infos, &verifstub.Info{NameV: e.name, SizeV: 12, MTimeV: 2, ModeV: iofs.ModeSymlink})
+		}
+	}
+	base.Entries = append(base.Entries, &verifstub.Entry{Path: "/w", File: dir})
+	w := &verifWorld{led: led, base: base}
+	w.h = &Handler{Fs: &fs.FS{Fs: base}, Copier: copier.NewPooledCopier(4)}
+	w.srv = verifServer(w.h)
+	w.conn = &verifstub.Conn{}
+	w.ctx = server.VerifNewContext[State](w.conn)
+	t := &verifTree{w: w}
+
+	live := 0
+	var total int64
+	for _, e := range ents {
+		if e.kind != 3 {
+			live++
+		}
+		switch e.kind {
+		case 0, 2:
+			total += e.size
+		case 1:
+			total += e.inner
+		}
+	}
+	wantSize := func(e verifWideEntry) int64 {
+		if e.kind == 1 {
+			return 0
+		}
+		return e.size
+	}
+
+	// 1. entry by entry
+	v2 := verifrt.Bool("v2")
+	op, hdr := uint16(0x122b), 11
+	if v2 {
+		op, hdr = 0x122f, 35
+	}
+	verifrt.Assert(t.openDir("/w") == 0, "wide.opendir")
+	seen := make([]bool, len(ents))
+	for k := 0; k < live; k++ {
+		out := t.request(verifReadCmd(op, 0, 0))
+		verifrt.Assert(len(out) >= hdr && int64(verifGet64(out)) != -1, "wide.entry.present")
+		if len(out) < hdr {
+			return
+		}
+		name := string(out[hdr:])
+		idx := -1
+		for i, e := range ents {
+			if !seen[i] && e.kind != 3 && e.name == name {
+				idx = i
+			}
+		}
+		verifrt.Assert(idx >= 0, "wide.entry.name")
+		if idx < 0 {
+			return
+		}
+		seen[idx] = true
+		e := ents[idx]
+		verifrt.Assert(int64(verifGet64(out)) == wantSize(e), "wide.entry.size")
+		if v2 {
+			verifrt.Assert(int64(verifGet64(out[8:])) == e.mtime, "wide.entry.mtime")
+		}
+		verifrt.Assert(int(out[hdr-3])<<8|int(out[hdr-2]) == len(e.name) && (out[hdr-1] == 1) == (e.kind == 1) && out[hdr-1] <= 1, "wide.entry.namelen-and-kind")
+	}
+	out := t.request(verifReadCmd(op, 0, 0))
+	verifrt.Assert(len(out) == hdr && int64(verifGet64(out)) == -1, "wide.entry.end-marker")
+
+	// 2. bulk listing on the same connection
+	verifrt.Assert(t.openDir("/w") == 0, "wide.reopen")
+	out = t.request(verifReadCmd(0x1232, 0, 0))
+	verifrt.Assert(len(out) == 8+529*live, "wide.bulk.length")
+	if len(out) != 8+529*live {
+		return
+	}
+	verifrt.Assert(int(verifGet64(out)) == live, "wide.bulk.count")
+	seen = make([]bool, len(ents))
+	for i := 0; i < live; i++ {
+		rec := out[8+529*i:]
+		idx := -1
+		for k, e := range ents {
+			if seen[k] || e.kind == 3 {
+				continue
+			}
+			nameOK := true
+			for c := 0; c < 512; c++ {
+				ch := byte(0)
+				if c < len(e.name) {
+					ch = e.name[c]
+				}
+				nameOK = nameOK && rec[17+c] == ch
+			}
+			if nameOK {
+				idx = k
+			}
+		}
+		verifrt.Assert(idx >= 0, "wide.bulk.name-field")
+		if idx < 0 {
+			return
+		}
+		seen[idx] = true
+		e := ents[idx]
+		verifrt.Assert(int64(verifGet64(rec)) == wantSize(e) && int64(verifGet64(rec[8:])) == e.mtime && (rec[16] == 1) == (e.kind == 1) && rec[16] <= 1, "wide.bulk.fields")
+	}
+
+	// 3. directory size
+	out = t.request(verifPathCmd(0x1231, "/w"))
+	verifrt.Assert(len(out) == 8 && int64(verifGet64(out)) == total, "wide.dirsize")
+}
